@@ -284,13 +284,13 @@ PROPS["C14"] = {
 PROPS["C10"] = {
   "units": ["reqrep"],
   "kani_quick": [], "kani_thorough": [],
-  "claim": "Proved for every call history and every interleaving of calls on clones of one socket, on the verbatim REQ send / recv (its two critical sections as regions) / recv_multipart and REP recv / recv_multipart / send_multipart (its critical section as a region): "
+  "claim": "Proved for every call history and every interleaving of calls on clones of one socket, on the verbatim REQ send / recv (whole function: its tokio::select! is desugared to a nondeterministic choice between the arms, rewrite R12, so the state access inside the select body is covered) / recv_multipart and REP recv / recv_multipart / send_multipart (its critical section as a region): "
            "an out-of-turn call returns InvalidState and writes nothing to the protocol state; a call that fails writes nothing (REP; REQ send); a successful call performs exactly one write and it is the legal transition taken from the value found in the same critical section "
            "(REQ: ReadyToSend -> ExpectingReply by send, ExpectingReply -> ReadyToSend by recv; REP: ReadyToReceive -> ReceivedRequest(peer) by recv, ReceivedRequest(peer) -> ReadyToReceive by send, which hands back exactly the remembered requester). "
            "Interference is modelled, not ignored: at every acquisition of the state mutex the protected value is arbitrary except for the rely condition, and every write carries the guarantee condition as a proof obligation "
            "(only send() leaves ReadyToSend and only while holding the send turn; only recv()/recv_multipart() leave ReadyToReceive and only while holding the recv turn). Two known findings are reported (a failed REQ recv resets the state).",
   "level_note": "Rely/guarantee argument: the per-function obligations are machine-checked; the step from 'every write honours the guarantee' to 'the rely holds between my critical sections' is the standard meta-argument (DESIGN.md 8b) and needs the turn lock to be a mutual exclusion (tokio::sync::Mutex, trusted). "
-                "Not covered: the tokio::select! body of REQ recv (syntactic scan: its only state access is a read), REP's wire assembly after the take (routing prefix + payload), REQ's reply matching against the request's peer, fairness of the turn locks.",
+                "R12 assumes that the select! arm not taken was dropped without effect (cancel safety of recv_logical_message / Notify::notified). Not covered: REP's wire assembly after the take (routing prefix + payload), REQ's reply matching against the request's peer, fairness of the turn locks.",
   "technique": "contract-based deductive verification (Verus on extracted async fns and regions; ghost write log + rely/guarantee conditions on the state mutex) with two recorded known findings; witness tests replayed on real sockets",
   "trusted_base": COMMON_TRUSTED + ["units/reqrep.py glue: CoreRef/LoadBalancer/Ingress/IfaceRef/Notifier as signature-only stand-ins; TurnLock = tokio::sync::Mutex<()> with ghost `held`; verif_state_acquire (havoc under rely) is the lock model R6h",
                                      "tokio::sync::Mutex provides mutual exclusion and releases on drop"],
@@ -301,13 +301,13 @@ PROPS["C09"] = {
   "units": ["reqrep", "dealersend"],
   "kani_quick": [], "kani_thorough": [],
   "claim": "Protocol-state part for REQ and REP only, proved on the verbatim async functions: a future can be dropped only where it returned Pending, i.e. at an await; "
-           "before EVERY await of ReqSocket::send / recv_multipart and RepSocket::recv / recv_multipart (the assertion is inserted mechanically at each `.await` of the extracted text) no write to the protocol state has happened yet, "
+           "before EVERY await of ReqSocket::send / recv / recv_multipart and RepSocket::recv / recv_multipart (the assertion is inserted mechanically at each `.await` of the extracted text) no write to the protocol state has happened yet, "
            "so dropping the call at any point leaves the lock-step state exactly as the call found it (the socket is not stuck: the next valid call is accepted), and the turn locks introduced by the C10 repairs are RAII guards released on drop. "
            "REP send_multipart takes the pending request in one critical section before its only await, so a dropped reply leaves the socket in ReadyToReceive (a valid resting state), never in between. "
            "DEALER frame-by-frame send (unit dealersend): at every await of DealerSocket::send the send transaction is either exactly as the call found it or closed (Idle), never half-consumed, "
            "so a cancelled send() cannot leave the socket waiting for a completion signal nobody will send.",
   "level_note": "Partial. Not covered: that no queued message is lost or duplicated when a recv future is dropped (ReadyPipeQueue::pop re-arms the ready list in a second await after the item was taken: whether that await can ever return Pending depends on "
-                "the ready-list capacity invariant, an interleaving property, see C08), whole-or-nothing delivery of a cancelled send (fibre channel futures), DEALER's send_multipart waiting behind a transaction, ROUTER's fragmented-send permit, REQ recv (tokio::select!), "
+                "the ready-list capacity invariant, an interleaving property, see C08), whole-or-nothing delivery of a cancelled send (fibre channel futures), DEALER's send_multipart waiting behind a transaction, ROUTER's fragmented-send permit, "
                 "internal cancellation by timeouts. Drop semantics of the guards are Rust's, not modelled.",
   "technique": "contract-based deductive verification (Verus; mechanically inserted await-point assertions over the ghost write log of unit reqrep)",
   "trusted_base": PROPS["C10"]["trusted_base"],
